@@ -22,6 +22,8 @@ def scope_of(d, r):
                 crosses_century=bool(yrs[0] < 2000 <= yrs[-1]),
                 crosses_year=bool(len(set(i[0] // 1000 for i in r['instants'][:len(r['steps'])])) > 1),
                 end_crosses_year=bool(len(yrs) > 1),
+                first_step_ends_next_day=bool(r['instants'][1][0] != r['instants'][0][0]),
+                crosses_midnight=bool(len(set(i[0] for i in r['instants'])) > 1),
                 ncell=d['shape'][0] * d['shape'][1], year=yrs[0], start_hour=hour, shape='x'.join(str(x) for x in d['shape']))
 
 
